@@ -642,6 +642,10 @@ func sqlNamedNull(rng *RNG, tier string) ([]string, int, error) {
 		}
 		jobs = append(jobs, job{n, o})
 	}
+	// nested paths: the operand is a path into a nested map (parent names with and without keyword fragments)
+	for _, n := range []string{"d.v", "dev.isnull", "nullable.x", "Meta.NotSet", "a.b"} {
+		jobs = append(jobs, job{n, names[nrng.Intn(len(names))]})
+	}
 	var mu sync.Mutex
 	var wg sync.WaitGroup
 	sem := make(chan struct{}, 12)
@@ -678,9 +682,18 @@ func sqlNamedNullOne(name, other string) ([]string, error) {
 	var out []string
 	// (presence of the column under test, presence of the other column)
 	rows := [][2]string{{"N", "Ps"}, {"A", "Ps"}, {"Pe", "N"}, {"Ps", "A"}, {"Pz", "N"}, {"Pf", "A"}, {"N", "N"}, {"Ps", "Ps"}}
+	nested := strings.Contains(name, ".")
 	mk := func(id int, r [2]string, col, ocol string) map[string]any {
 		m := map[string]any{"id": id}
-		if v, ok := c13NVal(r[0]); ok {
+		if i := strings.IndexByte(col, '.'); i > 0 {
+			// a dotted name is a path into a nested map: the leaf present (also with an explicit NULL), the leaf
+			// missing from the parent map, the parent missing
+			if v, ok := c13NVal(r[0]); ok {
+				m[col[:i]] = map[string]any{col[i+1:]: v}
+			} else if id%2 == 1 {
+				m[col[:i]] = map[string]any{"zz": int64(1)}
+			}
+		} else if v, ok := c13NVal(r[0]); ok {
 			m[col] = v
 		}
 		if v, ok := c13NVal(r[1]); ok {
@@ -703,6 +716,9 @@ func sqlNamedNullOne(name, other string) ([]string, error) {
 			{"wherefn", "coalesce(" + name + ", " + name + ") " + op},
 			{"wherebt", "`" + name + "` " + op},
 		} {
+			if nested && f.ctx == "wherebt" {
+				continue // a back-quoted dotted text is one flat column name, not a path
+			}
 			s := streamsql.New(streamsql.WithDiscardLog())
 			if err := s.Execute("SELECT id FROM stream WHERE " + f.pred); err != nil {
 				s.Stop()
@@ -740,8 +756,8 @@ func sqlNamedNullOne(name, other string) ([]string, error) {
 			}
 			s.Stop()
 		}
-		// HAVING: the name is the alias of an aggregate over CountingWindow(1)
-		{
+		// HAVING: the name is the alias of an aggregate over CountingWindow(1) (a path cannot be an alias)
+		if !nested {
 			s := streamsql.New(streamsql.WithDiscardLog())
 			q := "SELECT last_value(x) AS " + name + ", last_value(y) AS " + other + ", last_value(id) AS lid FROM stream GROUP BY CountingWindow(1) HAVING " + name + " " + op
 			if err := s.Execute(q); err != nil {
